@@ -873,6 +873,85 @@ func (in *instC) Digest() string {
 
 func (in *instC) Close() { in.s.Destroy() }
 
+// (c2) GetBlock under concurrency — AUXILIARY, free-running (a sampling of timings, like the
+// race pass of C40): many goroutines miss the same uncached hash at the same time; afterwards
+// the size bound must hold (queue <= BlocksCacheSize, map <= BlocksCacheSize), every cached block
+// must own a queue slot (otherwise it can never be evicted) and every answer must equal the
+// stored bytes. On the unchanged tree overlapping misses may put one hash into the queue twice
+// (a harmless duplicate slot: the queue stays within the bound), which is why the sequential
+// "queue length == map size" clause is not applied here.
+type concStats struct{ rounds, lookups, maxQueue, maxMap int64 }
+
+func concurrentGetBlock(r *evid.Run, rounds, workers int, st *concStats) {
+	s := freshStore()
+	defer s.Destroy()
+	var hashes []common.Uint256
+	hashes = append(hashes, s.Blocks[0].Hash())
+	for i := 0; i < 3; i++ {
+		b := s.NewBlock()
+		if err := s.Connect(b, nil); err != nil {
+			evid.Fatalf("blockcache-concurrent: connect: %v", err)
+		}
+		hashes = append(hashes, b.Hash())
+	}
+	want := map[common.Uint256]string{}
+	for _, h := range hashes {
+		h := h
+		var raw []byte
+		if err := s.FFL.View(func(tx database.Tx) error { var e error; raw, e = tx.FetchBlock(&h); return e }); err != nil {
+			evid.Fatalf("blockcache-concurrent: fetch: %v", err)
+		}
+		fb := new(types.DposBlock)
+		want[h] = renderBlock(fb, fb.Deserialize(bytes.NewReader(raw)))
+	}
+	for round := 0; round < rounds; round++ {
+		target := hashes[round%len(hashes)]
+		// make sure the target is not cached: look up two other hashes first
+		for k := 1; k <= 2; k++ {
+			s.FFL.GetBlock(hashes[(round+k)%len(hashes)])
+		}
+		start := make(chan struct{})
+		done := make(chan string, workers)
+		for w := 0; w < workers; w++ {
+			go func() {
+				<-start
+				done <- renderBlock(s.FFL.GetBlock(target))
+			}()
+		}
+		close(start)
+		for w := 0; w < workers; w++ {
+			if got := <-done; got != want[target] {
+				r.Violate("C15|blockcache-concurrent|GetBlock|different", fmt.Sprintf("concurrent GetBlock returned %s, stored bytes decode to %s", got, want[target]), map[string]interface{}{"system": "blockcache-concurrent"})
+				return
+			}
+			atomic.AddInt64(&st.lookups, 1)
+		}
+		order, keys := s.FFL.VerifBlockCache()
+		if int64(len(order)) > st.maxQueue {
+			st.maxQueue = int64(len(order))
+		}
+		if int64(len(keys)) > st.maxMap {
+			st.maxMap = int64(len(keys))
+		}
+		art := map[string]interface{}{"system": "blockcache-concurrent", "rounds": rounds, "workers": workers}
+		if len(order) > blockchain.BlocksCacheSize || len(keys) > blockchain.BlocksCacheSize {
+			r.Violate("C15|blockcache-concurrent|bound", fmt.Sprintf("after %d overlapping misses of one hash the block cache holds %d queue entries / %d blocks, BlocksCacheSize = %d", workers, len(order), len(keys), blockchain.BlocksCacheSize), art)
+			return
+		}
+		inQueue := map[common.Uint256]bool{}
+		for _, h := range order {
+			inQueue[h] = true
+		}
+		for _, k := range keys {
+			if !inQueue[k] {
+				r.Violate("C15|blockcache-concurrent|bound|block-without-queue-slot", "a cached block has no slot in the eviction queue and can never be evicted", art)
+				return
+			}
+		}
+		st.rounds++
+	}
+}
+
 // ---------------------------------------------------------------------------------------------
 // (d) p2p.WriteMessage send cache (process-global: serial exploration, reset between instances)
 
@@ -1071,6 +1150,16 @@ func main() {
 		}
 		systems = append(systems, map[string]interface{}{"system": name, "depth": specs[name].MaxDepth, "states": res.States,
 			"transitions": res.Transitions, "executions": res.Executions, "states_per_depth": res.PerDepth, "exhaustive": res.Exhaustive, "cap": res.Capped})
+	}
+	// blockcache under concurrency (auxiliary, free-running)
+	var cs concStats
+	if only == "" || only == "blockcache-concurrent" {
+		t0 := time.Now()
+		concurrentGetBlock(r, r.Pick(200, 2000), 32, &cs)
+		fmt.Printf("blockcache-concurrent (auxiliary): %d rounds x 32 overlapping lookups, max queue %d, max map %d, %.1fs\n", cs.rounds, cs.maxQueue, cs.maxMap, time.Since(t0).Seconds())
+		systems = append(systems, map[string]interface{}{"system": "blockcache-concurrent", "auxiliary": true, "rounds": cs.rounds, "lookups": cs.lookups,
+			"max_queue_len": cs.maxQueue, "max_map_len": cs.maxMap,
+			"note": "free-running goroutines (sampling of timings, not an enumeration): 32 overlapping GetBlock misses of one hash per round; size bound and queue/map consistency checked after every round; not counted in states/transitions"})
 	}
 	// txcache: in-place depth-first search
 	if only == "" || only == "txcache" {
